@@ -315,7 +315,7 @@ func checkComponents(doc specDoc, version string, report func(class, msg string)
 		names = append(names, n)
 	}
 	sort.Strings(names)
-	if want := []string{"AlphaBody", "BetaBody", "Colour", "Rank", "Receipt", "Rfc7807Error", "Widget"}; fmt.Sprint(names) != fmt.Sprint(want) {
+	if want := []string{"AlphaBody", "BetaBody", "Colour", "Flag", "Priority", "Rank", "Receipt", "Rfc7807Error", "Widget"}; fmt.Sprint(names) != fmt.Sprint(want) {
 		report("C07-component-set", fmt.Sprintf("%s: components %v, want %v", version, names, want))
 	}
 	if got, want := strs(dig(schemas["Rank"], "enum")), []string{"high", "low", "mid", "top"}; fmt.Sprint(got) != fmt.Sprint(want) {
@@ -337,7 +337,7 @@ func checkComponents(doc specDoc, version string, report func(class, msg string)
 	if got, want := props("BetaBody"), []string{"count", "note", "rank"}; fmt.Sprint(got) != fmt.Sprint(want) {
 		report("C07-properties", fmt.Sprintf("%s: BetaBody properties %v, want %v", version, got, want))
 	}
-	if got, want := props("Widget"), []string{"H", "W", "colour", "title"}; fmt.Sprint(got) != fmt.Sprint(want) {
+	if got, want := props("Widget"), []string{"H", "W", "colour", "flag", "priority", "title"}; fmt.Sprint(got) != fmt.Sprint(want) {
 		report("C07-properties", fmt.Sprintf("%s: Widget properties %v, want %v (fields declared together are all properties)", version, got, want))
 	}
 	if got, want := strs(dig(schemas["AlphaBody"], "required")), []string{"name"}; fmt.Sprint(got) != fmt.Sprint(want) {
@@ -424,7 +424,24 @@ func TestVerifSpecAgainstAnnotations(t *testing.T) {
 		schemas, _ := dig(doc, "components", "schemas").(map[string]any)
 		for n, sc := range schemas {
 			out["schema.type "+n] = fmt.Sprint(dig(sc, "type"))
-			out["schema.enum "+n] = fmt.Sprint(strs(dig(sc, "enum")))
+			// the value set is compared by spelling, the JSON types of the values separately (a 3.0 "1" and a 3.1 1 are
+			// the same spelling but not the same value)
+			var spell, kinds []string
+			if l, ok := dig(sc, "enum").([]any); ok {
+				for _, ev := range l {
+					if sv, isStr := ev.(string); isStr {
+						spell = append(spell, sv)
+					} else {
+						b, _ := json.Marshal(ev)
+						spell = append(spell, string(b))
+					}
+					kinds = append(kinds, jsonKindOf(ev))
+				}
+			}
+			sort.Strings(spell)
+			sort.Strings(kinds)
+			out["schema.enum "+n] = fmt.Sprint(spell)
+			out["schema.enumtypes "+n] = fmt.Sprint(kinds)
 			out["schema.required "+n] = fmt.Sprint(strs(dig(sc, "required")))
 			var props []string
 			if m, ok := dig(sc, "properties").(map[string]any); ok {
@@ -455,6 +472,9 @@ func TestVerifSpecAgainstAnnotations(t *testing.T) {
 			aspect := strings.Fields(k)[0]
 			if aspect == "responseCodes" && strings.ReplaceAll(a30[k], " default", "") == a31[k] {
 				aspect = "responseCodes-default-entry"
+			}
+			if aspect == "schema.enumtypes" {
+				aspect += "-" + strings.Fields(k)[1] // one class per component: a finding is one input
 			}
 			report("C11-"+aspect, fmt.Sprintf("%s: 3.0.0 has %s, 3.1.0 has %s", k, a30[k], a31[k]))
 		}
